@@ -8,7 +8,7 @@ CONSTANTS
   CodeChoices <- MC_CodeChoices
   AllowAllocate <- MC_None
   AllowInput <- MC_None
-  MaxSend = 1
+  MaxSend = 0
   MaxDrops = 0
   MaxDup = 0
   MaxSwap = 0
@@ -28,7 +28,9 @@ INVARIANT VersionsFirst
 INVARIANT InOrderOnce
 INVARIANT ClosedOnce
 INVARIANT ServerFreedAtClose
-INVARIANT MoodMatches
+INVARIANT NothingAfter
+INVARIANT VerdictRight
+INVARIANT MismatchSilent
 INVARIANT KeyAgreement
 INVARIANT VerifiedImpliesSameCode
 INVARIANT NoForgery
